@@ -200,11 +200,20 @@ func (fr *Frame) callWith0(st *State, c *ssa.CallCommon, args []Val, site ssa.In
 		ord = so // ordinal of the call site in source order (not in execution order)
 	}
 	// caller-side assertions of the contract being verified
-	if fr.top && fr.contract != nil && !vc.quiet {
-		for _, ca := range fr.contract.CallAsrt {
+	topFr := fr
+	for topFr.up != nil {
+		topFr = topFr.up
+	}
+	if topFr.top && topFr.contract != nil && !vc.quiet {
+		for _, ca := range topFr.contract.CallAsrt {
+			if fr != topFr && !ca.InHelpers {
+				continue
+			}
 			if (ca.Ord == 0 || ca.Ord == ord) && calleeMatches(key, ca.Callee) {
-				env := fr.specEnv(st, nil)
-				env.block = site.Block()
+				env := topFr.specEnv(st, nil)
+				if fr == topFr {
+					env.block = site.Block()
+				}
 				env.localsFirst = true
 				for i, a := range args {
 					env.vars[fmt.Sprintf("$arg%d", i)] = a
@@ -257,6 +266,12 @@ func (fr *Frame) callWith0(st *State, c *ssa.CallCommon, args []Val, site ssa.In
 		return res
 	}
 	vc.notes["havoc at call to "+key] = true
+	if callee != nil && inRepo(callee) {
+		if vc.opaque == nil {
+			vc.opaque = map[string]bool{}
+		}
+		vc.opaque[key] = true // an in-repository callee seen as unknown code (no contract, not inlinable)
+	}
 	vc.havocHeap(st)
 	vc.forgetReachable(st, c, callee, key)
 	res := vc.freshVal("r."+shortCallee(key), rt)
@@ -1661,4 +1676,56 @@ func fieldName(fa *ssa.FieldAddr) string {
 		}
 	}
 	return "?"
+}
+
+// markHelperAssertions: a call-site assertion whose pattern matches no call
+// site of the function itself applies inside the callees expanded in place.
+func (fr *Frame) markHelperAssertions() {
+	if fr.contract == nil {
+		return
+	}
+	keys := map[string]int{}
+	for _, b := range fr.fn.Blocks {
+		for _, in := range b.Instrs {
+			ci, ok := in.(ssa.CallInstruction)
+			if !ok {
+				continue
+			}
+			c := ci.Common()
+			k := ""
+			if c.IsInvoke() {
+				k = ifaceMethodKey(c)
+			} else {
+				switch v := c.Value.(type) {
+				case *ssa.Function:
+					f := v
+					if f.Origin() != nil {
+						f = f.Origin()
+					}
+					k = funcKey(f)
+				case *ssa.MakeClosure:
+					k = funcKey(v.Fn.(*ssa.Function))
+				case *ssa.UnOp:
+					if g, ok := v.X.(*ssa.Global); ok && g.Pkg != nil {
+						k = g.Pkg.Pkg.Name() + "." + g.Name()
+					}
+					if fa, ok := v.X.(*ssa.FieldAddr); ok {
+						k = "field." + fieldName(fa)
+					}
+				}
+			}
+			if k != "" {
+				keys[k]++
+			}
+		}
+	}
+	for _, ca := range fr.contract.CallAsrt {
+		found := false
+		for k, n := range keys {
+			if calleeMatches(k, ca.Callee) && (ca.Ord == 0 || ca.Ord <= n) {
+				found = true
+			}
+		}
+		ca.InHelpers = !found
+	}
 }
